@@ -36,10 +36,18 @@ def compare_stream(ctx, info, defn, raws, outs, kind, yield_unrec, rng, prop="C0
     """run packet_generator over the concatenated packets and compare the yielded items with the model"""
     from space_packet_parser import exceptions as X
     from space_packet_parser import packets as P
-    stream = b"".join(raws)
+    # foreign prefix bytes before every packet (skip_header_bytes) and the progress display are exercised on some streams
+    k = rng.choice([0, 0, 0, 3, 4]) if root is None else 0
+    stream = b"".join(bytes(0x80 | rng.getrandbits(7) for _ in range(k)) + r_ for r_ in raws)
     exp = harness.stream_expectation(outs, True, yield_unrec)
     src = None
     kw = {"yield_unrecognized_packet_errors": yield_unrec}
+    if k:
+        kw["skip_header_bytes"] = k
+        ctx.count("stream.with_prefix")
+    progress = rng.random() < 0.2
+    if progress:
+        kw["show_progress"] = True
     if root is not None:
         kw["root_container_name"] = root
     try:
@@ -57,10 +65,12 @@ def compare_stream(ctx, info, defn, raws, outs, kind, yield_unrec, rng, prop="C0
                 sizes.append(c)
                 left -= c
             src = sources.ScriptedSocket(sources.cut(stream, sizes), closed_by_peer=True)
+        import contextlib
         g = defn.packet_generator(src, **kw)
         got = []
         for _ in range(len(raws) + 2):
-            s = monitored(next, g)
+            with contextlib.redirect_stdout(io.StringIO()) if progress else contextlib.nullcontext():
+                s = monitored(next, g)
             if isinstance(s.exc, StopIteration):
                 break
             got.append(s)
@@ -72,7 +82,7 @@ def compare_stream(ctx, info, defn, raws, outs, kind, yield_unrec, rng, prop="C0
             src.close()
     ctx.count("evaluations")
     ctx.count("stream.runs")
-    wit = {"source": kind, "yield_unrecognized": yield_unrec, "n_packets": len(raws),
+    wit = {"source": kind, "yield_unrecognized": yield_unrec, "n_packets": len(raws), "skip_header_bytes": k, "show_progress": progress,
            "model": [(o.status, o.consumption, o.path[-1]) for o in outs][:30]}
     for pos, s in enumerate(got):
         if s.exc is not None:
